@@ -688,17 +688,30 @@ impl QuicMultiplexer {
         for conn_id in timedout {
             self.deadlines.remove(&conn_id);
 
-            match self.connections.get_mut(&conn_id) {
-                None => log_id!(
-                    debug,
-                    self.id,
-                    "Expired connection not found: {:?}",
-                    conn_id
-                ),
-                Some(Connection::Handshake(conn)) => conn.quic_conn.lock().unwrap().on_timeout(),
-                Some(Connection::Established(conn)) => conn.quic_conn.lock().unwrap().on_timeout(),
+            let quic_conn = match self.connections.get(&conn_id) {
+                None => {
+                    log_id!(
+                        debug,
+                        self.id,
+                        "Expired connection not found: {:?}",
+                        conn_id
+                    );
+                    continue;
+                }
+                Some(Connection::Handshake(conn)) => conn.quic_conn.clone(),
+                Some(Connection::Established(conn)) => conn.quic_conn.clone(),
+            };
+            let mut quic_conn = quic_conn.lock().unwrap();
+            quic_conn.on_timeout();
+            // the connection's next timer (loss recovery, draining, idle)
+            if let Some(timeout) = quic_conn.timeout() {
+                self.deadlines.insert(conn_id, now + timeout);
             }
         }
+
+        // wait for the closest of the remaining deadlines next: a deadline that has passed
+        // would switch the timer branch of `listen` off for good
+        self.closest_deadline = self.deadlines.values().min().copied();
     }
 
     fn on_socket_message(&mut self, message: SocketMessage) -> io::Result<()> {
